@@ -38,7 +38,7 @@ func c18exec(idx int, statePrefix, reqPrefix string) c18run {
 	r.h = h
 	if idx < numPrivileged {
 		verifrt.PushPrefix(statePrefix)
-		h.setupAdminState(1)
+		h.setupAdminState(2) // two attesters, so that disabling one can succeed
 		verifrt.PopPrefix()
 		verifrt.PushPrefix(reqPrefix)
 		from := nondetSubmitter()
